@@ -10,6 +10,11 @@ E3 = "E3 cooperative scheduler + preemption-bounded DFS (harness/vsched, harness
 
 # id -> (level, engine, technique, text, note, design_ref)
 CHECKS = {
+    "C09": ("model_checking", E1,
+            "explicit-state BFS for soundness on every reachable healthy state + exhaustive enumeration of corruption subsets on three base states against an independent reference differ/repairer",
+            "On every reachable state of the kitchen-sink exploration (depth 3/4) check-only and fix runs must report nothing and change nothing. On three base states ALL subsets of size <= 2 (thorough: 3) of 20 raw-bucket corruption atoms (unique: missing/dangling/wrong-target/stale; set: missing/extra/dangling id, empty key, missing key, stray key; fk: missing/extra/dangling back-reference, dangling reference nullable and not, null in non-nullable; link: one-sided either side, dangling; genuine unique conflict) are applied in an earlier transaction and in the same transaction as the fix: check-only reports every item of the reference diff and leaves the image unchanged, the fix run reaches the reference-repaired image, the re-check reports only unfixable conflicts and changes nothing.",
+            "Reports are matched by the ids/values they mention; extra reports on corrupted databases are not judged; empty link buckets created by reading links and zero-length vs typed-nil null values are normalised.",
+            "DESIGN.md §4 C09"),
     "C13": ("exploration", E2,
             "bounded-exhaustive enumeration of values, value trees, field-checker subsets and compound-key lists; write in one committed transaction, read back in a later one",
             "Every typed setter/getter pair over boundary values (integer extremes, signed zero, infinities, NaN, denormals, NUL-containing and 64 KiB strings, times in several zones incl. year 1/9999), all string lists up to 3 over {\"\",a,b,dup}, ALL value trees up to depth 2 (thorough: 3) over 8 leaf kinds with up to 2 children (nulls, empty maps/lists inside containers), all 16 field-checker subsets (untouched fields byte-identical) and all compound-key lists up to 3 over 8 element shapes with an exhaustive collision table.",
